@@ -33,13 +33,27 @@ struct Clock {
     n_sleep_calls: Cell<u64>,
     /// nanosleep request seen that the kernel would reject
     bad_request: Cell<bool>,
+    /// when set, every clock reading first advances both clocks by the next of these steps
+    steps: std::cell::RefCell<Vec<i128>>,
+    /// value (ns) handed out by the last reading of each clock
+    last_mono_read: Cell<i128>,
+    last_real_read: Cell<i128>,
 }
 
 impl Kernel for Clock {
     fn syscall(&self, nr: usize, a: [usize; 6]) -> usize {
         match nr {
             sc::nr::CLOCK_GETTIME => {
+                if let Some(step) = self.steps.borrow_mut().pop() {
+                    self.mono.set((self.mono.get() + step).min(LIMIT));
+                    self.real.set((self.real.get() + step).min(LIMIT));
+                }
                 let v = if a[0] == 0 { self.real.get() } else { self.mono.get() };
+                if a[0] == 0 {
+                    self.last_real_read.set(v);
+                } else {
+                    self.last_mono_read.set(v);
+                }
                 unsafe {
                     *(a[1] as *mut Ts) = Ts { sec: v.div_euclid(NS) as i64, nsec: v.rem_euclid(NS) as i64 };
                 }
@@ -267,6 +281,39 @@ fn arith_case(dec: &mut Dec, clock: &Clock, counters: &mut Vec<(&'static str, u6
         None if diff < 0 => {}
         other => return viol("arith|systemtime-sub|wrong", format!("SystemTime ({s2},{n2}) - ({s1},{n1}) = {other:?}, exact {diff} ns")),
     }
+    match st1 - d {
+        Some(r) if exp_sub >= 0 && r.duration_since(tiny_std::time::UNIX_TIME).map(dur_ns) == Some(exp_sub) => {}
+        None if exp_sub < 0 => {}
+        other => return viol("arith|systemtime-sub-duration|wrong", format!("SystemTime ({s1},{n1}) - {d:?} = {other:?}, exact {exp_sub} ns")),
+    }
+    match st2.duration_since(st1) {
+        Some(dd) if diff >= 0 && dur_ns(dd) == diff => {}
+        None if diff < 0 => {}
+        other => return viol("arith|systemtime-duration_since|wrong", format!("SystemTime ({s2},{n2}).duration_since(({s1},{n1})) = {other:?}, exact {diff} ns")),
+    }
+    if (st1 < st2) != (a1 < a2) || (st1 == st2) != (a1 == a2) {
+        return viol("arith|systemtime-ordering", format!("ordering of SystemTime ({s1},{n1}) and ({s2},{n2}) disagrees with subtraction"));
+    }
+    if let Some(r) = st1 + d {
+        match r - d {
+            Some(back) if back == st1 => {}
+            other => return viol("arith|systemtime-roundtrip|(t+d)-d", format!("((({s1},{n1}) + {d:?}) - d = {other:?}")),
+        }
+        match r - st1 {
+            Some(dd) if dd == d => {}
+            other => return viol("arith|systemtime-roundtrip|(t+d)-t", format!("((({s1},{n1}) + {d:?}) - t = {other:?}")),
+        }
+    }
+    // elapsed = now - t, with the clocks at the second value
+    clock.mono.set(a2);
+    clock.real.set(a2);
+    for (name, got) in [("Instant::elapsed", t1.elapsed()), ("SystemTime::elapsed", st1.elapsed())] {
+        match got {
+            Some(dd) if diff >= 0 && dur_ns(dd) == diff => {}
+            None if diff < 0 => {}
+            other => return viol(&format!("arith|{name}|wrong"), format!("{name} of ({s1},{n1}) with the clock at ({s2},{n2}) = {other:?}, exact {diff} ns")),
+        }
+    }
     match (st1 + d, representable(exp_add)) {
         (Some(r), true) => {
             if r.duration_since(tiny_std::time::UNIX_TIME).map(dur_ns) != Some(exp_add) {
@@ -351,16 +398,51 @@ fn sleep_case(dec: &mut Dec, clock: &Clock, counters: &mut Vec<(&'static str, u6
             counters.push(("probe.sleep_err", 1));
         }
     }
-    // readings never decrease, elapsed never panics
+    // readings never decrease and show what the clock shows; the clock moves between them
+    // (steps biased to cross a second boundary); elapsed is exact and never panics
+    {
+        let mut steps = clock.steps.borrow_mut();
+        for _ in 0..8 {
+            steps.push(match dec.choose(K::Arg, 5) {
+                0 => 0,
+                1 => 1,
+                2 => NS - clock.mono.get().rem_euclid(NS),
+                3 => NS - clock.mono.get().rem_euclid(NS) - 1,
+                _ => i128::from(dec.choose(K::Arg, 2_000_000_000)),
+            });
+        }
+    }
     let a = MonotonicInstant::now();
-    let _ = before.elapsed();
+    let a_ns = clock.last_mono_read.get();
+    let el = before.elapsed();
+    let el_at = clock.last_mono_read.get();
     let b = Instant::now();
+    let b_ns = clock.last_mono_read.get();
     let c = MonotonicInstant::now();
+    let c_ns = clock.last_mono_read.get();
     if a < before || c < a || b.as_ref() < a.as_instant().as_ref() {
         return viol("clock|decreased", "successive monotonic readings decreased".to_string());
     }
-    let _ = b.elapsed();
-    let _ = SystemTime::now().elapsed();
+    if ts_ns(a.as_instant().as_ref()) != a_ns || ts_ns(b.as_ref()) != b_ns || ts_ns(c.as_instant().as_ref()) != c_ns {
+        return viol("clock|wrong-reading", format!("monotonic readings {} / {} / {} ns, the clock showed {a_ns} / {b_ns} / {c_ns}", ts_ns(a.as_instant().as_ref()), ts_ns(b.as_ref()), ts_ns(c.as_instant().as_ref())));
+    }
+    if el_at - start <= i128::from(u64::MAX) * NS && dur_ns(el) != el_at - start {
+        return viol("clock|elapsed-wrong", format!("MonotonicInstant::elapsed() = {el:?}, the clock advanced by {} ns since that reading", el_at - start));
+    }
+    match b.elapsed() {
+        Some(e) if dur_ns(e) == clock.last_mono_read.get() - b_ns => {}
+        other => return viol("clock|elapsed-wrong", format!("Instant::elapsed() = {other:?}, the clock advanced by {} ns since that reading", clock.last_mono_read.get() - b_ns)),
+    }
+    let st = SystemTime::now();
+    let st_ns = clock.last_real_read.get();
+    if st.duration_since(tiny_std::time::UNIX_TIME).map(dur_ns) != Some(st_ns) {
+        return viol("clock|wrong-reading", format!("SystemTime::now() is not the real-time clock's value {st_ns} ns"));
+    }
+    match st.elapsed() {
+        Some(e) if dur_ns(e) == clock.last_real_read.get() - st_ns => {}
+        other => return viol("clock|elapsed-wrong", format!("SystemTime::elapsed() = {other:?}, the real-time clock advanced by {} ns", clock.last_real_read.get() - st_ns)),
+    }
+    clock.steps.borrow_mut().clear();
     None
 }
 
@@ -389,7 +471,7 @@ impl Check for C19 {
         }
     }
     fn rule(&self) -> String {
-        "each case is seeded; even cases = sleep clause: thread::sleep(d) for d in {0, 1 ns, sub-second, seconds, up to 2^40 s, i64::MAX s (+/- offsets), i64::MAX+1 s, u64::MAX s} on a simulated 128-bit clock; nanosleep is interrupted 0..20 times by decision (after 0, total-1 or a drawn fraction of the request, remainder written back) and may fail once with EFAULT/EINVAL/ENOMEM; Ok must not come before the monotonic clock advanced by d, other errnos must surface, unrepresentable durations must be errors, then successive clock readings must not decrease and elapsed() must not panic. odd cases = arithmetic clause (a pure function, sampled): two Instants are read from a clock set to boundary-biased values (0, 1, 10^9-1, 2^32, i64::MAX neighbourhood, equal seconds), a boundary-biased Duration (incl. results landing on 0 / the top +-1); t+d, t-d, t2-t1, duration_since, ordering, round trips and the SystemTime versions are compared with exact i128 arithmetic; SystemTime values down to i64::MIN seconds are only required not to panic. Odd workers run a debug build (overflow checks on). non-trivial = sleep case with >=1 injected interruption or error, or arithmetic case whose exact result is within 2 s of a representability boundary; distinct = hash of inputs and outcomes".into()
+        "each case is seeded; the clause is chosen by a hash of the case number (both clauses run in both build profiles); sleep clause: thread::sleep(d) for d in {0, 1 ns, sub-second, seconds, up to 2^40 s, i64::MAX s (+/- offsets), i64::MAX+1 s, u64::MAX s} on a simulated 128-bit clock; nanosleep is interrupted 0..20 times by decision (after 0, total-1 or a drawn fraction of the request, remainder written back) and may fail once with EFAULT/EINVAL/ENOMEM; Ok must not come before the monotonic clock advanced by d, other errnos must surface, unrepresentable durations must be errors, then the clock is advanced between readings by steps biased to cross a second boundary: every reading (MonotonicInstant, Instant, SystemTime::now) must equal what the simulated clock showed, readings must not decrease, and the three elapsed() values must be exact. arithmetic clause (a pure function, sampled): two Instants are read from a clock set to boundary-biased values (0, 1, 10^9-1, 2^32, i64::MAX neighbourhood, equal seconds), a boundary-biased Duration (incl. results landing on 0 / the top +-1); t+d, t-d, t2-t1, duration_since, ordering, round trips, elapsed() and the SystemTime versions of all of them are compared with exact i128 arithmetic; SystemTime values down to i64::MIN seconds are only required not to panic. Odd workers run a debug build (overflow checks on). non-trivial = sleep case with >=1 injected interruption or error, or arithmetic case whose exact result is within 2 s of a representability boundary; distinct = hash of inputs and outcomes".into()
     }
     fn assumptions(&self) -> Vec<String> {
         vec![
@@ -410,12 +492,17 @@ impl Check for C19 {
             n_other: Cell::new(0),
             n_sleep_calls: Cell::new(0),
             bad_request: Cell::new(false),
+            steps: std::cell::RefCell::new(Vec::new()),
+            last_mono_read: Cell::new(0),
+            last_real_read: Cell::new(0),
         };
         let mut sim = Sim::new(dec, SimCfg { record: opts.record, ..SimCfg::default() });
         sim.set_kernel(&clock);
         let mut counters: Vec<(&'static str, u64)> = Vec::new();
         let mut v: Option<Violation> = None;
-        let sleep_kind = case % 2 == 0;
+        // not by parity: cases are dealt to workers round-robin and the build profile is the
+        // worker's parity, both clauses have to run in both profiles
+        let sleep_kind = simk::dec::mix(&[case, 0x5eed]) & 1 == 0;
         sched::with_installed(&mut sim, || {
             let r = std::panic::catch_unwind(std::panic::AssertUnwindSafe(|| {
                 let s = sim_ref();
